@@ -4,6 +4,7 @@ import (
 	"io"
 	"log"
 	"testing"
+	"time"
 
 	"verif/mon"
 )
@@ -38,13 +39,18 @@ func TestC43(t *testing.T) {
 	m.Assume("signature verification uses crypto/rsa, crypto/ecdsa, crypto/dsa, crypto/ed25519 on key objects parsed by the harness from ssh-keygen output; public blobs are ssh-keygen's; testing/synctest provides the clock read by the keyring")
 	m.Assume("OpenSSH 9.2 ssh-add / ssh-agent are the foreign implementations; a disagreement between OpenSSH's and the harness's signature verification is reported as inconclusive")
 
-	runSequences(t, m, pool)
-	runAlias(m)
-	runFrames(m, pool)
-	runConcurrent(m, pool)
-	runUnixGoGo(m, pool)
-	runSSHAdd(m, pool)
-	runOpenSSHAgent(m, pool)
+	timed := func(name string, fn func()) { // wall time per stream is evidence only, never a verdict
+		t0 := time.Now()
+		fn()
+		m.Count("wall_ms:"+name, int(time.Since(t0).Milliseconds()))
+	}
+	timed("seq", func() { runSequences(t, m, pool) })
+	timed("alias", func() { runAlias(m) })
+	timed("frames", func() { runFrames(m, pool) })
+	timed("conc", func() { runConcurrent(m, pool) })
+	timed("unix", func() { runUnixGoGo(m, pool) })
+	timed("ssh-add", func() { runSSHAdd(m, pool) })
+	timed("openssh-agent", func() { runOpenSSHAgent(m, pool) })
 
 	// gates: situations the monitor exists to see (all forced by construction)
 	for _, o := range expiryOffsets {
@@ -66,6 +72,6 @@ func TestC43(t *testing.T) {
 	m.Gate("conc_histories_with_overlap", 40, "concurrent histories with >=10 overlapping operation pairs of different clients")
 	m.Gate("unix_sequences", 16, "Go client <-> Go server sequences over a unix socket")
 	m.Gate("sshadd_sequences", 16, "ssh-add sequences against the Go ServeAgent")
-	m.Gate("sshadd_signatures_verified_by_openssh", 10, "signatures of the Go agent verified by OpenSSH (ssh-add -T)")
+	m.Gate("sshadd_signatures_verified_by_openssh", 16, "signatures of the Go agent verified by OpenSSH (ssh-add -T)")
 	m.Gate("openssh_agent_sequences", 16, "Go client sequences against OpenSSH's ssh-agent")
 }
